@@ -367,7 +367,12 @@ fn words_leg(g: &Grammar) -> Acc {
         c[..1].make_ascii_uppercase();
         words.push(c);
     }
+    // reserved words that are not grammar keywords are plain identifiers
+    for w in super::c15::RESERVED {
+        words.push(w.to_string());
+    }
     for w in [
+        "i1_0", "i1_0x", "i_1", "i1__0", "i-1_0", "f1_0", "f1_0e5", "f1_5", "d1_0", "d2_50", "i0_", "x1_0", "0x1_f", "0b1_0", "1_0",
         "i5", "i5x", "i-5", "i-", "i+", "i", "int", "inty", "f1e", "f1e5", "f1e+", "f1e+5", "f.5", "f5.", "f", "d1", "d1x", "d", "0x1g", "0x", "0b12", "0o78", "0o79", "true1",
         "nonex", "x1", "x_1", "_x", "x-", "X", "e5", "f1.e5", "f1.5e", "d1.5e3", "i1e5", "i1.5", "0x1.5", "1x", "1", "01", "is_some", "is_", "date_time", "date_", "date",
         "to_upper", "to_", "to", "é", "xé", "x é",
